@@ -3,6 +3,9 @@
 Bit-stream half, stage 1 (SILK symbol layer): the Lean model OpusModel/SilkSyms.lean is the frozen normative
 reference for which symbols the decoder reads, in which order, with which (FROZEN, lean/OpusModel/SilkSymsFrozen.lean) probability tables; the real
 opus_decode must reproduce every decoded index, pulse array, header flag and range-coder state on arbitrary bytes.
+Stage 2 (CELT symbol layer): OpusModel/CeltSyms.lean (frame header) and OpusModel/CeltBands.lean (bit allocation via C17's
+OpusModel/CeltAlloc.lean driven by the range decoder, fine energy, quant_all_bands, anti-collapse bit, energy finalisation): the
+model predicts every entropy-decoder call and the final range of every CELT-only, hybrid and redundancy frame from the bytes.
 PCM half: no reference decoder or RFC test vectors exist offline; a committed self-reference corpus compared
 with the repo's own src/opus_compare.c guards it as a REGRESSION ORACLE (not a proof, not the RFC vectors)."""
 import gzip, json, os, re, shutil, subprocess
@@ -17,7 +20,7 @@ SOURCES = ['silk/dec_API.c', 'silk/decode_indices.c', 'silk/decode_pulses.c', 's
            'silk/define.h', 'silk/structs.h', 'silk/control.h', 'silk/API.h', 'silk/main.h',
            'src/opus_decoder.c', 'src/opus.c', 'src/opus_compare.c', 'celt/entdec.c', 'celt/entcode.h', 'celt/entcode.c',
            'celt/celt_decoder.c', 'celt/quant_bands.c', 'celt/laplace.c', 'celt/celt.c', 'celt/celt.h', 'celt/rate.c',
-           'celt/static_modes_float.h', 'celt/modes.c']
+           'celt/static_modes_float.h', 'celt/modes.c', 'celt/bands.c', 'celt/rate.h', 'celt/cwrs.c']
 WRAPPED = ['silk_Decode', 'silk_decode_indices', 'silk_decode_pulses', 'silk_stereo_decode_pred',
            'silk_stereo_decode_mid_only', 'celt_decode_with_ec', 'celt_decode_with_ec_dred',
            'ec_dec_bit_logp', 'ec_dec_uint', 'ec_dec_bits', 'ec_dec_icdf', 'ec_decode_bin', 'ec_decode', 'ec_dec_update',
@@ -37,10 +40,11 @@ UNPROVED = [
     'silkSyms_lockstep (design priority P1): the decoder model reads back exactly the symbols the mirrored encoder calls of '
     'silk_encode_indices / silk_encode_pulses wrote — a corollary of C08 (range coder) that is out of this property\'s scope; '
     'on the implementation it is searched (encoder final range == decoder final range), not proved',
-    'stage 2 beyond the header (design priority P2): clt_compute_allocation (skip / intensity / dual-stereo symbols), fine '
-    'energy bits, the PVQ band data of quant_all_bands, anti-collapse bit and energy finalisation are not modelled; the CELT '
-    'header model stops at the arguments and decoder state with which clt_compute_allocation is entered (CELT-only, hybrid '
-    'and redundancy frames); the rest of a CELT frame is covered by the final-range search only',
+    'celtBands (stage 2 behind the header: OpusModel/CeltBands.lean — allocation symbols, fine energy, quant_all_bands, '
+    'anti-collapse bit, finalisation, final range) is an executable reference tied call-by-call to the decoder; its theorems '
+    '(no pulse-cache index out of bounds, every ec_dec_uint argument in [2, 2^32), totality under C17\'s allocation contract, '
+    'ec_tell never beyond 8*len at the end of a frame) are not proved yet — the model raises `fault` / INTERNAL_ERROR in '
+    'these cases and the differential run observes that the decoder and the model never do',
     'pcm_within_tolerance: the PCM clause is a statement about float DSP relative to an external reference decoder that does not '
     'exist offline; guarded by the self-reference corpus (regression oracle) only',
 ]
@@ -53,13 +57,19 @@ RULE = ('correspondence on whole packets through opus_decode: (a) arbitrary, low
         'packets. Every decoded index, pulse, flag, stereo predictor, condCoding/FrameIndex argument, rng/ec_tell after every '
         'silk_Decode call, redundancy frame position and the CELT entry state are compared exactly. Stage 2: for every CELT-only, '
         'hybrid and redundancy frame every entropy-decoder call of the header (function, parameters, table, returned value) up '
-        'to clt_compute_allocation and the arguments / rng / ec_tell_frac with which that function is entered. '
+        'to clt_compute_allocation and the arguments / rng / ec_tell_frac with which that function is entered; then the calls '
+        'made inside clt_compute_allocation and everything it returns (codedBands, intensity, dual_stereo, balance, pulses[], '
+        'fine_quant[], fine_priority[]), every call of unquant_fine_energy, quant_all_bands (theta with its step / uniform / '
+        'triangular PDF incl. ec_decode + ec_dec_update arguments, inv flag, N=1 and N=2 sign bits, ec_dec_uint(V(N,K)) of every '
+        'partition), the anti-collapse bit and unquant_energy_finalise, the range at the end of the frame, and '
+        'OPUS_GET_FINAL_RANGE of the packet (CELT-only, hybrid, SILK-only with and without redundancy). '
         'distinct = (op, outcome) classes')
 NOT_COVERED = [
     'PCM within the RFC 6716 tolerance of the normative reference decoder: not decidable by this technique offline (no reference '
     'decoder, no test vectors, no formal float semantics); the self-reference corpus is a regression oracle only',
-    'CELT symbol layer behind the frame header: bit allocation symbols, fine energy, PVQ band data, anti-collapse (stage 2 covers '
-    'the header only: silence, post-filter, transient, intra, coarse energy, tf, spread, dynalloc, trim)',
+    'CELT: the decoded PVQ vectors, collapse masks, folding, anti-collapse processing and all of the DSP (only what decides '
+    'which symbols are read with which parameters is modelled); the band-allocation tables are C17\'s (read from the '
+    'regenerated Gen/CeltTables.lean by OpusModel/CeltAlloc.lean; their frozen copy is compared by celtHdr_tables_frozen_eq_repo)',
     'SILK parameter dequantisation and synthesis (C18 covers dequantisation; synthesis DSP is an oracle)',
     'fixed-point build of the tree: only the float build configured by CMake defaults is exercised',
     'decode_fec=1 with a frame_size different from the packet frame duration (the PLC prefix reads no symbols)',
@@ -68,12 +78,14 @@ ASSUMPTIONS = [
     'the harness observes the symbol layer at the call boundaries of silk_Decode, silk_decode_indices, silk_decode_pulses, '
     'silk_stereo_decode_pred, silk_stereo_decode_mid_only, celt_decode_with_ec, celt_decode_with_ec_dred, clt_compute_allocation '
     'and the entropy-decoder entry points ec_dec_bit_logp / ec_dec_uint / ec_dec_bits / ec_dec_icdf / ec_decode_bin / '
-    'ec_dec_update (GNU ld --wrap); '
+    'ec_decode / ec_dec_update (GNU ld --wrap); '
     'these functions must remain external symbols called across translation units',
     'x86-64, little-endian, gcc; C int arithmetic of the symbol layer modelled unbounded (range theorems show every stored '
     'index fits its C type)',
 ]
 TRUSTED = ['harness/c03_silksyms.c recording wrappers and the printer of Driver/SuiteSilkSyms.lean',
+           'OpusModel/CeltAlloc.lean, OpusModel/Cwrs.lean (C17: clt_compute_allocation, V(N,K) table access, bits2pulses) — used '
+           'read-only; C03\'s differential run compares their results inside whole frames as well',
            'OpusModel/RangeCoder.lean (range decoder model; validated by C08\'s own correspondence suite)']
 
 
